@@ -388,3 +388,85 @@ func init() {
 	h.Prop("verdict_behaviour_invariance", 24000, 400000, genCase, run)
 	h.Enum("array_parameter_operations", enumRef, runRef)
 }
+
+// ---------------------------------------------------------------------------
+// local arrays under re-entry: every activation of a function owns its local
+// arrays (array parameters the caller did not supply); arrays handed down are
+// shared by reference.  Recursion shapes with a closed-form expected result.
+
+type ReentryCase struct {
+	Shape  string `json:"shape"`  // tree | mutual | linear
+	Depth  int    `json:"depth"`  // 1..4
+	Branch int    `json:"branch"` // calls per activation (tree, mutual): 1..3
+	ByRef  bool   `json:"byref"`  // each activation also hands its local array to a helper that adds an entry
+	Later  bool   `json:"later"`  // the local array is first touched only after the inner calls returned
+}
+
+func genReentry(t *rapid.T) ReentryCase {
+	return ReentryCase{Shape: rapid.SampledFrom([]string{"tree", "tree", "mutual", "linear"}).Draw(t, "shape"), Depth: rapid.IntRange(1, 4).Draw(t, "depth"),
+		Branch: rapid.IntRange(1, 3).Draw(t, "branch"), ByRef: rapid.Bool().Draw(t, "byref"), Later: rapid.Bool().Draw(t, "later")}
+}
+
+func runReentry(x *h.Ctx, c ReentryCase) string {
+	b := c.Branch
+	if c.Shape == "linear" {
+		b = 1
+	}
+	other := "t"
+	if c.Shape == "mutual" {
+		other = "u"
+	}
+	pre, post := `loc["id"] = id; loc[d] = d * 10 + 1; `, ""
+	if c.Later {
+		pre, post = "", `loc["id"] = id; loc[d] = d * 10 + 1; `
+	}
+	byref := ""
+	if c.ByRef {
+		byref = `add(loc, "extra" d); `
+	}
+	body := func(self, callee string) string {
+		return fmt.Sprintf(`function %s(d, id,    loc, i, s) {
+  %s%sfor (i = 1; i <= %d; i++) if (d > 0) s = s %s(d - 1, id "." i)
+  %sreturn "(" id ":" loc["id"] ":" loc[d] ":" length(loc) s ")"
+}
+`, self, pre, byref, b, callee, post)
+	}
+	src := "function add(arr, k) { arr[k] = 1 }\n" + body("t", other)
+	if c.Shape == "mutual" {
+		src += body("u", "t")
+	}
+	src += fmt.Sprintf("BEGIN { print t(%d, \"r\"); print t(1, \"again\") }\n", c.Depth)
+	var node func(d int, id string) string
+	node = func(d int, id string) string {
+		n := 2
+		if c.ByRef {
+			n = 3
+		}
+		var kids strings.Builder
+		for i := 1; i <= b && d > 0; i++ {
+			kids.WriteString(node(d-1, fmt.Sprintf("%s.%d", id, i)))
+		}
+		return fmt.Sprintf("(%s:%s:%d:%d%s)", id, id, d*10+1, n, kids.String())
+	}
+	want := node(c.Depth, "r") + "\n" + node(1, "again") + "\n"
+	prog, err := parser.ParseProgram([]byte(src), nil)
+	if err != nil {
+		return fmt.Sprintf("a program whose only arrays are locals and a by-reference helper is rejected: %v\n%s", err, src)
+	}
+	var out bytes.Buffer
+	if _, err := interp.ExecProgram(prog, &interp.Config{Stdin: strings.NewReader(""), Output: &out, Error: &out, Environ: []string{}}); err != nil {
+		return fmt.Sprintf("run-time error: %v\n%s", err, src)
+	}
+	if out.String() != want {
+		return fmt.Sprintf("local arrays of nested activations interfere (each activation owns its local arrays; arrays handed down are shared)\nprogram:\n%s\ngoawk: %s\nwant:  %s", src, out.String(), want)
+	}
+	x.Class("shape-" + c.Shape)
+	if c.Depth >= 2 && (b >= 2 || c.Shape == "mutual") {
+		x.Nontrivial("")
+	}
+	return ""
+}
+
+func init() {
+	h.Prop("local_arrays_under_reentry", 400, 4000, genReentry, runReentry)
+}
